@@ -576,6 +576,67 @@ class PropertyRun:
             self.log("     SURVIVED " + s_)
         return out
 
+    def second_solver_crosscheck(self, max_obligations=48, budget_s=240):
+        """thorough tier: a sample of the obligations z3 discharged is given to cvc5 as well (independent solver).
+        cvc5 answering `sat` where z3 answered `unsat` would point at a solver or encoding problem: it is reported as
+        undecided for that obligation, never as a violation; `unknown` from cvc5 (quantifiers, lambdas) says nothing."""
+        import random
+        import subprocess
+        import tempfile
+        rng = random.Random(self.seed)
+        cands = [o for o in getattr(self, 'allobs', []) if o.result == 'unsat' and o.backend == 'z3' and o.hyps and o.goal is not True]
+        rng.shuffle(cands)
+        out = {'sampled': 0, 'agree_unsat': 0, 'cvc5_unknown': 0, 'cvc5_sat': []}
+        t0 = time.time()
+        for ob in cands[:max_obligations]:
+            if time.time() - t0 > budget_s:
+                break
+            try:
+                text = smt.to_smt2(ob, light=True) or smt.to_smt2(ob)
+            except Exception:
+                continue
+            if text is None:
+                continue
+            out['sampled'] += 1
+            with tempfile.NamedTemporaryFile('w', suffix='.smt2', delete=False, dir=os.path.join(VERIF, '.cache')) as f:
+                f.write('(set-logic ALL)\n' + text)
+                path = f.name
+            try:
+                pr_ = subprocess.run(['/usr/bin/cvc5', '--tlimit=10000', path], capture_output=True, text=True, timeout=20)
+                ans = (pr_.stdout.strip().split('\n') or [''])[0]
+            except Exception:
+                ans = 'unknown'
+            finally:
+                os.unlink(path)
+            if ans == 'unsat':
+                out['agree_unsat'] += 1
+            elif ans == 'sat':
+                # the light query drops hypotheses: sat there is expected when they were needed; repeat with all of them
+                try:
+                    full = smt.to_smt2(ob)
+                    with tempfile.NamedTemporaryFile('w', suffix='.smt2', delete=False, dir=os.path.join(VERIF, '.cache')) as f:
+                        f.write('(set-logic ALL)\n' + full)
+                        path = f.name
+                    pr_ = subprocess.run(['/usr/bin/cvc5', '--tlimit=10000', path], capture_output=True, text=True, timeout=20)
+                    ans2 = (pr_.stdout.strip().split('\n') or [''])[0]
+                    os.unlink(path)
+                except Exception:
+                    ans2 = 'unknown'
+                if ans2 == 'sat':
+                    out['cvc5_sat'].append(ob.name)
+                    self.undecided.append({'obligation': ob.name, 'reason': 'z3: unsat, cvc5: sat on the same query (solver disagreement; no verdict)'})
+                elif ans2 == 'unsat':
+                    out['agree_unsat'] += 1
+                else:
+                    out['cvc5_unknown'] += 1
+            else:
+                out['cvc5_unknown'] += 1
+        out['seconds'] = round(time.time() - t0, 1)
+        self.crosscheck = out
+        self.log("  [self-test] cvc5 cross-check of %d discharged obligations: %d agree, %d unknown, %d disagree  %.0fs" % (
+            out['sampled'], out['agree_unsat'], out['cvc5_unknown'], len(out['cvc5_sat']), out['seconds']))
+        return out
+
     def lean_recheck(self):
         """re-compile lean/Lemmas.lean (the lemma schemas whose instances the SMT side uses) with the installed
         Lean 4 / Mathlib; cached per content hash inside .cache"""
@@ -749,6 +810,8 @@ class PropertyRun:
             cov['mutant_selftest'] = self.mutants
         if getattr(self, 'lean', None) is not None:
             cov['lean_lemma_file'] = self.lean
+        if getattr(self, 'crosscheck', None) is not None:
+            cov['second_solver_crosscheck'] = self.crosscheck
         if self.brep is not None:
             b = self.brep.summary(self.bscope)
             cov['bounded'] = b
@@ -812,6 +875,10 @@ def run_property(pid, tier, seed):
                 pr.mutant_selftest()
             except Exception:
                 pr.log("  [self-test] mutant self-test failed to run: " + traceback.format_exc()[-300:])
+            try:
+                pr.second_solver_crosscheck()
+            except Exception:
+                pr.log("  [self-test] cvc5 cross-check failed to run: " + traceback.format_exc()[-300:])
             try:
                 pr.lean_recheck()
             except Exception:
